@@ -86,6 +86,12 @@ func (w *sessionResponseWriter) WriteHeader(statusCode int) {
 		// Multiple calls ot WriteHeader are no-ops
 		return
 	}
+	if statusCode >= 100 && statusCode <= 199 && statusCode != http.StatusSwitchingProtocols {
+		// Informational (1xx) responses, e.g. `103 Early Hints`, are interim
+		// responses that will be followed by the final response header.
+		w.wrapped.WriteHeader(statusCode)
+		return
+	}
 	w.wroteHeader = true
 	header := w.Header()
 	cookiesToAdd := (&http.Response{Header: header}).Cookies()
